@@ -57,6 +57,14 @@ fn limit_case(size: u64) -> Result<(), String> {
     } else if fin != Err(GeneratorError::InputSizeTooLarge) {
         return Err(format!("size {} gives {:?}", size, fin));
     }
+    // the classification helper of the error type
+    if !GeneratorError::InputSizeTooLarge.is_size_too_large_error()
+        || !GeneratorError::FixedSizeTooLarge.is_size_too_large_error()
+        || GeneratorError::FixedSizeMismatch.is_size_too_large_error()
+        || GeneratorError::OutputOverflow.is_size_too_large_error()
+    {
+        return Err("is_size_too_large_error() misclassifies an error".into());
+    }
     let mut g2 = Generator::new();
     let before = format!("{:?}", g2);
     let res = guarded(|| g2.set_fixed_input_size(size))?;
